@@ -18,6 +18,7 @@ struct Cfg
 {
   int N, R, span, max_delta, views, tof_mash, tof_bins;
   std::string scanner_name; // empty: generated
+  std::string geometry;     // "" = Cylindrical
 };
 
 static FILE *ops, *out, *orc;
@@ -44,6 +45,35 @@ dps_str(std::vector<DP> v)
   return s.str();
 }
 
+
+#include "stir/ProjDataInfoGenericNoArcCorr.h"
+#include "stir/ProjDataInfoBlocksOnCylindricalNoArcCorr.h"
+
+// the Generic/Blocks classes have the same API without the `ignore_non_spatial_dimensions` argument
+static void
+all_pairs(const ProjDataInfoCylindricalNoArcCorr& p, std::vector<DetectionPositionPair<>>& v, const Bin& b, bool ignore)
+{
+  p.get_all_det_pos_pairs_for_bin(v, b, ignore);
+}
+static void
+all_pairs(const ProjDataInfoGenericNoArcCorr& p, std::vector<DetectionPositionPair<>>& v, const Bin& b, bool)
+{
+  p.get_all_det_pos_pairs_for_bin(v, b);
+}
+static unsigned
+num_pairs(const ProjDataInfoCylindricalNoArcCorr& p, const Bin& b, bool ignore)
+{
+  return p.get_num_det_pos_pairs_for_bin(b, ignore);
+}
+static unsigned
+num_pairs(const ProjDataInfoGenericNoArcCorr& p, const Bin& b, bool)
+{
+  return p.get_num_det_pos_pairs_for_bin(b);
+}
+
+template <class PDI>
+static void run_cfg_t(const Cfg& c, vh::Rng& rng, bool thorough, PDI* pdi, int N, int R);
+
 static void
 run_cfg(const Cfg& c, vh::Rng& rng, bool thorough)
 {
@@ -52,6 +82,18 @@ run_cfg(const Cfg& c, vh::Rng& rng, bool thorough)
     scanner.reset(Scanner::get_scanner_from_name(c.scanner_name));
   else
     scanner = vh::make_scanner(c.N, c.R, c.tof_bins);
+  if (!c.geometry.empty())
+    {
+      try
+        {
+          scanner->set_scanner_geometry(c.geometry);
+          scanner->set_up();
+        }
+      catch (...)
+        {
+          return; // this scanner cannot be used with that geometry: not a configuration the library accepts
+        }
+    }
   const int N = scanner->get_num_detectors_per_ring();
   const int R = scanner->get_num_rings();
   std::fprintf(ops, "cfg %d %d %d %d %d %d\n", N, R, c.span, c.max_delta, c.views, c.tof_mash);
@@ -65,12 +107,18 @@ run_cfg(const Cfg& c, vh::Rng& rng, bool thorough)
       std::fprintf(out, "err\n");
       return;
     }
-  shared_ptr<ProjDataInfoCylindricalNoArcCorr> pdi = dynamic_pointer_cast<ProjDataInfoCylindricalNoArcCorr>(pdi0);
-  if (!pdi)
-    {
-      std::fprintf(out, "err\n");
-      return;
-    }
+  if (auto* cyl = dynamic_cast<ProjDataInfoCylindricalNoArcCorr*>(pdi0.get()))
+    run_cfg_t(c, rng, thorough, cyl, N, R);
+  else if (auto* gen = dynamic_cast<ProjDataInfoGenericNoArcCorr*>(pdi0.get()))
+    run_cfg_t(c, rng, thorough, gen, N, R);
+  else
+    std::fprintf(out, "err\n");
+}
+
+template <class PDI>
+static void
+run_cfg_t(const Cfg& c, vh::Rng& rng, bool thorough, PDI* pdi, int N, int R)
+{
   {
     std::ostringstream s;
     s << "segs " << pdi->get_min_segment_num() << " :";
@@ -257,7 +305,7 @@ run_cfg(const Cfg& c, vh::Rng& rng, bool thorough)
         continue;
       // the bin's own list
       std::vector<DetectionPositionPair<>> all;
-      pdi->get_all_det_pos_pairs_for_bin(all, b, false);
+      all_pairs(*pdi, all, b, false);
       std::vector<DP> lst;
       bool found = false, sound = true;
       for (auto& q : all)
@@ -271,14 +319,14 @@ run_cfg(const Cfg& c, vh::Rng& rng, bool thorough)
             found = true;
         }
       std::fprintf(ops, "pairs %s\n", bin_str(b).c_str());
-      std::fprintf(out, "%u | %s\n", pdi->get_num_det_pos_pairs_for_bin(b, false), dps_str(lst).c_str());
+      std::fprintf(out, "%u | %s\n", num_pairs(*pdi, b, false), dps_str(lst).c_str());
       ++oracle_checks;
       std::set<DP> uniq(lst.begin(), lst.end());
-      if (!found || !sound || uniq.size() != lst.size() || lst.size() != pdi->get_num_det_pos_pairs_for_bin(b, false))
+      if (!found || !sound || uniq.size() != lst.size() || lst.size() != num_pairs(*pdi, b, false))
         {
           ++oracle_fails;
           std::fprintf(orc, "ORACLE-FAIL bin list inexact (found=%d sound=%d n=%zu reported=%u) for pair %d %d %d %d %d bin %s\n", found, sound,
-                       lst.size(), pdi->get_num_det_pos_pairs_for_bin(b, false), d1, r1, d2, r2, t, bin_str(b).c_str());
+                       lst.size(), num_pairs(*pdi, b, false), d1, r1, d2, r2, t, bin_str(b).c_str());
         }
       // uncompressed: bin -> pair -> bin
       if (c.span == 1 && mash == 1 && tofm <= 1)
@@ -446,6 +494,27 @@ main(int argc, char** argv)
         }
       cfgs.push_back(c);
     }
+  // the same formulas are copied into the Generic / BlocksOnCylindrical classes (no TOF, no view mashing there)
+  {
+    const char* bnames[] = { "SAFIRDualRingPrototype", "ECAT 953" };
+    for (int k = 0; k < 2; ++k)
+      {
+        shared_ptr<Scanner> s(Scanner::get_scanner_from_name(bnames[k]));
+        if (!s || s->get_type() == Scanner::Unknown_scanner)
+          continue;
+        Cfg c;
+        c.scanner_name = bnames[k];
+        c.geometry = "BlocksOnCylindrical";
+        c.N = s->get_num_detectors_per_ring();
+        c.R = s->get_num_rings();
+        c.span = 1;
+        c.max_delta = std::min(c.R - 1, 5);
+        c.views = c.N / 2;
+        c.tof_mash = 0;
+        c.tof_bins = -1;
+        cfgs.push_back(c);
+      }
+  }
   // predefined scanners with their default-ish sampling
   const char* names_quick[] = { "ECAT 953", "ECAT 931", "GE Advance", "Siemens mMR" };
   const char* names_thorough[] = { "ECAT 953", "ECAT 931", "ECAT 962", "GE Advance", "Siemens mMR", "GE Discovery 690", "ECAT HRRT", "GE Signa PET/MR", "Siemens mCT" };
